@@ -75,6 +75,62 @@ def _param_effects(f, params):
     return ev
 
 
+def _removal_indices(rep, g):
+    """Inside a loop over a snapshot ``list(enumerate(L))`` that removes
+    entries from L itself, positions shift by the number of removals so far:
+    L is indexed with ``i - d`` (d counted up once per removal), while a
+    snapshot taken before the loop (``keys = list(M)``) is indexed with the
+    unshifted ``i``.  Mixing the two up removes the wrong partner."""
+    loops = [n for n in ast.walk(g.node) if isinstance(n, ast.For)
+             and isinstance(n.target, ast.Tuple) and len(n.target.elts) == 2
+             and isinstance(n.target.elts[0], ast.Name)
+             and "enumerate(" in src(n.iter)]
+    for lp in loops:
+        idx = lp.target.elts[0].id
+        live = None
+        m = [c for c in ast.walk(lp.iter) if isinstance(c, ast.Call)
+             and src(c.func) == "enumerate" and c.args]
+        if m and isinstance(m[0].args[0], ast.Name):
+            live = m[0].args[0].id
+        snapshot_iter = src(lp.iter).startswith("list(")
+        # snapshots: names assigned list(...) before the loop, never mutated
+        snaps = set()
+        for n in ast.walk(g.node):
+            if isinstance(n, ast.Assign) and n.lineno < lp.lineno and \
+                    isinstance(n.targets[0], ast.Name) and \
+                    isinstance(n.value, ast.Call) and \
+                    src(n.value.func) in ("list", "tuple"):
+                snaps.add(n.targets[0].id)
+        counters = {n.target.id for n in ast.walk(lp)
+                    if isinstance(n, ast.AugAssign) and
+                    isinstance(n.target, ast.Name) and
+                    isinstance(n.op, ast.Add) and src(n.value) == "1"}
+        for c in ast.walk(lp):
+            # L.pop(<index>)
+            if isinstance(c, ast.Call) and isinstance(
+                    c.func, ast.Attribute) and c.func.attr == "pop" and \
+                    isinstance(c.func.value, ast.Name) and \
+                    c.func.value.id == live and c.args:
+                t = src(c.args[0]).replace(" ", "")
+                ok = snapshot_iter and any(t == "%s-%s" % (idx, d)
+                                           for d in counters)
+                rep.check(ok, "R18.1", g.qualname, "the list that shrinks "
+                          "while its snapshot is walked is indexed by "
+                          "(position - removals so far)",
+                          construct="removal-index:" + live,
+                          where=L.where(g, c.lineno), detail=src(c))
+            # snapshot[<index>]
+            if isinstance(c, ast.Subscript) and isinstance(
+                    c.value, ast.Name) and c.value.id in snaps and \
+                    c.value.id != live and not isinstance(c.slice, ast.Slice):
+                t = src(c.slice).replace(" ", "")
+                rep.check(t == idx, "R18.1", g.qualname, "a snapshot taken "
+                          "before the loop is indexed by the unshifted "
+                          "position of the attribute",
+                          construct="snapshot-index:" + c.value.id,
+                          where=L.where(g, c.lineno), detail=src(c))
+
+
 def _zip(repo, rep):
     pa = repo.func("chameleon.tal.prepare_attributes")
     zips = [n for n in ast.walk(pa.node) if isinstance(n, ast.Call)
@@ -174,6 +230,7 @@ def _zip(repo, rep):
             rep.check(same, "R18.1", g.qualname, "both removals happen in "
                       "the same step", construct="removal-step:" + g.name,
                       where=L.where(g))
+            _removal_indices(rep, g)
     rep.check(n_checked >= 2, "R18.1", ve.qualname, "the functions that "
               "receive the paired collections before the zip were analysed",
               construct="zip-callees", detail=str(n_checked))
